@@ -1,4 +1,5 @@
 import SecsModel.Props.C20
+import SecsModel.Props.C20b
 #print axioms SecsModel.Props.C20.tables_match_source
 #print axioms SecsModel.Props.C20.safety_all_histories
 #print axioms SecsModel.Props.C20.established_only_by_exchange
@@ -12,3 +13,15 @@ import SecsModel.Props.C20
 #print axioms SecsModel.Props.C20.overlap_completes
 #print axioms SecsModel.Props.C20.service_agreement
 #print axioms SecsModel.Props.C20.events_exactly_once
+#print axioms SecsModel.Props.C20b.sim_deliver
+#print axioms SecsModel.Props.C20b.sim_deliver_frames
+#print axioms SecsModel.Props.C20b.sim_linkUp
+#print axioms SecsModel.Props.C20b.sim_linkDown
+#print axioms SecsModel.Props.C20b.sim_t3
+#print axioms SecsModel.Props.C20b.sim_delay
+#print axioms SecsModel.Props.C20b.pair_delay_frames
+#print axioms SecsModel.Props.C20b.sim_enable
+#print axioms SecsModel.Props.C20b.sim_disable
+#print axioms SecsModel.Proofs.PairBridge.never_entered
+#print axioms SecsModel.Props.C20b.delay_not_selected_differs
+#print axioms SecsModel.Props.C20b.delay_not_connected_differs
